@@ -23,6 +23,43 @@ IGNORES = ["// falco-ignore-next-line", "# falco-ignore-next-line", "# falco-ign
            "/* falco-ignore-next-line */", "// falco-ignore-start", "# plain comment"]
 
 
+def load_generated_tables(gen_dir):
+    """replace the tables above by those regenerated from the Go sources (coq/Gen/InferScopes.v: scope constants,
+    fastlyScopes, the suffix rule and the annotation names); returns True when the file was read"""
+    import os
+    import re
+    global SC, FASTLY, SUFFIXES, ANNOT
+    p = os.path.join(gen_dir, "InferScopes.v")
+    if not os.path.exists(p):
+        return False
+    txt = open(p).read()
+    consts = {m.group(1): int(m.group(2)) for m in re.finditer(r"Definition SC_(\w+) : N := (\d+)\.", txt)}
+
+    def table(name):
+        m = re.search(r"Definition %s : list \(string \* N\) := \[(.*?)\]\." % name, txt, re.S)
+        return [(a, consts[b]) for a, b in re.findall(r'\("([^"]+)"%string, SC_(\w+)\)', m.group(1))] if m else []
+    fastly, suffix, annot = table("fastly_scopes"), table("suffix_scopes"), table("annotation_scopes")
+    if not (fastly and suffix and annot):
+        return False
+    m = re.search(r"Definition builtin_top_names : list string := \[(.*?)\]\.", txt, re.S)
+    if m:
+        global REJECTED
+        tops = re.findall(r'"([^"]+)"%string', m.group(1))
+        kw = set()
+        tt = os.path.join(gen_dir, "TokenTypes.v")
+        if os.path.exists(tt):
+            km = re.search(r"Definition keywords : list \(string \* ttype\) := \[(.*?)\]\.", open(tt).read(), re.S)
+            kw = set(re.findall(r'\("([^"]+)",', km.group(1))) if km else set()
+        rej = [t for t in tops if re.fullmatch(r"[a-z][a-z0-9_]*", t) and t not in kw]
+        if len(rej) >= 10:
+            REJECTED = rej
+    SC = {k.lower(): v for k, v in consts.items() if v}
+    FASTLY = dict(fastly)
+    SUFFIXES = [a[1:] for a, _ in suffix]
+    ANNOT = [a.lower() for a, _ in annot]
+    return True
+
+
 def explicit_scope(name, annots):
     """fastlyScopes[name], else the name-suffix rule, else the union of the @scope annotations, else 0"""
     if name in FASTLY:
